@@ -615,10 +615,13 @@ package gmars
 //@   modifies nothing
 //@   ensures [C13] w.pq == nil ==> result.1 != nil
 
+//@ pure sgnSpec(a int, m int) = ite(a > m / 2, 0 - (m - a), a)
+//@ lemma sgnRound [C16]: forall a, m :: 0 <= a && a < m ==> (sgnSpec(a, m) == a || sgnSpec(a, m) + m == a) && 0 - (m / 2) - 1 <= sgnSpec(a, m) && sgnSpec(a, m) <= m / 2
 //@ func (*reportSim).addressSigned
 //@   panics [C13][C16]
 //@   requires s != nil
 //@   modifies nothing
+//@   ensures [C16] a <= s.m && s.m <= 4294967296 ==> result == sgnSpec(a, s.m)
 //@   ensures [C16] a < s.m && s.m <= 4294967296 ==> (result % s.m == a || result + s.m == a) && 0 - (s.m / 2) - 1 <= result && result <= s.m / 2
 
 // ---------------------------------------------------------------------------
@@ -693,8 +696,10 @@ package gmars
 //@   modifies nothing
 //@   ensures result == lower(s)
 
+//@ uf sprintf(f Str, args (Array Int Int), n int) Str
 //@ extern fmt.Sprintf
 //@   modifies nothing
+//@   ensures result == sprintf(format, elems(a), len(a))
 
 //@ func (OpCode).String
 //@   panics [C16]
@@ -785,3 +790,21 @@ package gmars
 //@   panics [C16]
 //@   modifies nothing
 //@   ensures [C16] a < coresize && coresize <= 4294967296 ==> (result % coresize == a || result + coresize == a) && 0 - (coresize / 2) - 1 <= result && result <= coresize / 2
+
+// ---------------------------------------------------------------------------
+// warrior.go: the printed load listing (C16)
+
+//@ pure lineFmt() = "%s  %3s%-3s %1s %5d, %1s %5d     \n"
+//@ pure listingLine(w *warrior, i int) = sprintf(lineFmt(), zeros()[0 := box_string(ite(i == w.data.Start, "START", "     "))][1 := box_OpCode(w.data.Code[i].Op)]
+//@      [2 := box_string(ite(w.sim.legacy, "", "." + modName(w.data.Code[i].OpMode)))][3 := box_AddressMode(w.data.Code[i].AMode)]
+//@      [4 := box_int(sgnSpec(w.data.Code[i].A, w.sim.m))][5 := box_AddressMode(w.data.Code[i].BMode)][6 := box_int(sgnSpec(w.data.Code[i].B, w.sim.m))], 7)
+//@ func (*warrior).LoadCode
+//@   panics [C13][C16]
+//@   requires w != nil && w.data != nil && w.sim != nil && w.sim.m <= 4294967296 && (forall k :: 0 <= k && k < len(w.data.Code) ==> wfI(w.data.Code[k], w.sim.m))
+//@   modifies nothing
+//@   ensures [C16] len(w.data.Code) == 0 ==> result == ""
+//@   loop 1
+//@     invariant 0 - 1 <= rangeindex && rangeindex < len(w.data.Code)
+//@     invariant [C16] rangeindex == 0 - 1 ==> out == ite(w.sim.legacy, "", "" + "       ORG      START\n")
+//@     backedge [C16] out == iter(out) + listingLine(w, rangeindex)
+//@     decreases len(w.data.Code) - rangeindex
